@@ -81,4 +81,79 @@ OncePerFullIteration(gg, q) ==
 \* the state machine only produces legal runs (checked by MC_IterSchedule on the history variable)
 InvHistLegal == (subiter > g.numSubiters /\ ~crashed) => (LegalRun(g, hist) /\ OncePerFullIteration(g, hist))
 InvHistPrefix == ~crashed => Len(hist) = subiter - g.startSubiter
+
+(* ======================================================================================== *)
+(* Beyond the property sentence, same kind of schedule: WHICH SUB-ITERATIONS TRIGGER WHAT.    *)
+(* (IterativeReconstruction::reconstruct / end_of_iteration_processing, OSMAPOSL / OSSPS /    *)
+(* KOSMAPOSL update_estimate; parsing keys "number of subiterations", "start at subiteration  *)
+(* number", "save estimates at subiteration intervals", "inter-update filter subiteration     *)
+(* interval", "inter-iteration filter subiteration interval", "post-filter type",             *)
+(* "report objective function values interval", "write update image", "disable output".)     *)
+(*                                                                                            *)
+(* An event configuration h extends the schedule record g by                                  *)
+(*   algo ("OSMAPOSL", "OSSPS", "KOSMAPOSL"), save, iuInt, hasIU, iiInt, hasII, hasPF,        *)
+(*   report, writeUpdate, disableOutput.                                                      *)
+(* Sub-iterations startSubiter..numSubiters are run, BOTH ENDS INCLUDED, whether or not       *)
+(* numSubiters is a multiple of the number of subsets.  Within sub-iteration k, in this order: *)
+(*   G   the (sub)gradient of subset get_subset_num() is requested from the objective function *)
+(*   IU  inter-update filter (OS(MAP)OSL kind only): interval > 0, a filter is set, k % interval = 0 *)
+(*   WU  the update image is written ("<prefix>_update_<k>"): write update image and output enabled *)
+(*   R   objective function values reported: interval > 0 and (k % interval = 0 or k is the last) *)
+(*   II  inter-iteration filter: interval > 0, a filter is set, k % interval = 0               *)
+(*   PF  post-filter: k is the last sub-iteration and a post-filter is set                     *)
+(*   W   the estimate is written to "<prefix>_<k>": (k % save = 0 or k is the last) and output enabled *)
+(* so the final iterate is always written (after the post-filter), intermediate ones after the *)
+(* inter-iteration filter.                                                                     *)
+IsOSEM(h) == h.algo \in {"OSMAPOSL", "KOSMAPOSL"}
+Last(h, k) == k = h.numSubiters
+DoIU(h, k) == IsOSEM(h) /\ h.iuInt > 0 /\ h.hasIU /\ k % h.iuInt = 0
+DoWU(h, k) == h.writeUpdate /\ ~h.disableOutput
+DoR(h, k) == h.report > 0 /\ (k % h.report = 0 \/ Last(h, k))
+DoII(h, k) == h.iiInt > 0 /\ h.hasII /\ k % h.iiInt = 0
+DoPF(h, k) == Last(h, k) /\ h.hasPF
+DoW(h, k) == (k % h.save = 0 \/ Last(h, k)) /\ ~h.disableOutput
+\* KOSMAPOSL additionally writes the kernelised (emission) estimate "<kernel prefix>_<k>", regardless of "disable output"
+DoWK(h, k) == h.algo = "KOSMAPOSL" /\ (k % h.save = 0 \/ Last(h, k))
+
+Opt(cond, kind, k) == IF cond THEN << << kind, k >> >> ELSE << >>
+EventsAt(h, k) == << << "G", k >> >> \o Opt(DoIU(h, k), "IU", k) \o Opt(DoWU(h, k), "WU", k) \o Opt(DoR(h, k), "R", k)
+                  \o Opt(DoII(h, k), "II", k) \o Opt(DoPF(h, k), "PF", k) \o Opt(DoW(h, k), "W", k)
+RECURSIVE EventsFrom(_, _)
+EventsFrom(h, k) == IF k > h.numSubiters THEN << >> ELSE EventsAt(h, k) \o EventsFrom(h, k + 1)
+ExpectedEvents(h) == EventsFrom(h, h.startSubiter)
+
+\* set_up refuses (error): "Range error in number of subiterations", "... starting subiteration number", "... iteration save
+\* interval (has to be between 1 and num_subiterations)", "... inter-iteration filter interval", "... inter-update filter interval"
+SetupMustFail(h) == \/ h.numSubiters < 1 \/ h.startSubiter < 1
+                    \/ h.save < 1 \/ h.save > h.numSubiters
+                    \/ h.iiInt < 0 \/ (IsOSEM(h) /\ h.iuInt < 0)
+\* file names: make_filename_prefix_subiteration_num: prefix + "_" + subiteration number
+FileOfW(prefix, k) == prefix \o "_" \o ToString(k)
+FileOfWU(prefix, k) == prefix \o "_update_" \o ToString(k)
+ExpectedFiles(h, prefix, kprefix) ==
+  { FileOfW(prefix, k) : k \in { j \in h.startSubiter .. h.numSubiters : DoW(h, j) } }
+  \cup { FileOfWU(prefix, k) : k \in { j \in h.startSubiter .. h.numSubiters : DoWU(h, j) } }
+  \cup { FileOfW(kprefix, k) : k \in { j \in h.startSubiter .. h.numSubiters : DoWK(h, j) } }
+
+(* theorems about the event schedule, evaluated by MC_IterEvents for every small h *)
+EvKinds(e, kind) == { i \in 1 .. Len(e) : e[i][1] = kind }
+EvTheorems(h) ==
+  LET e == ExpectedEvents(h)
+      K == h.startSubiter .. h.numSubiters IN
+  \* every sub-iteration start..num (inclusive) exactly one gradient request, in increasing order
+  /\ Cardinality(EvKinds(e, "G")) = NumSteps(h)
+  /\ \A k \in K : Cardinality({ i \in EvKinds(e, "G") : e[i][2] = k }) = 1
+  /\ \A i, j \in 1 .. Len(e) : i < j => e[i][2] <= e[j][2]
+  \* the final iterate is always written when output is enabled and anything was run, as the very last event, after the post-filter
+  /\ (K # {} /\ ~h.disableOutput) => (e[Len(e)] = << "W", h.numSubiters >>
+                                       /\ (h.hasPF => e[Len(e) - 1] = << "PF", h.numSubiters >>))
+  \* nothing is written when output is disabled
+  /\ h.disableOutput => (EvKinds(e, "W") = {} /\ EvKinds(e, "WU") = {})
+  \* the post-filter is applied at most once, and only to the last iterate
+  /\ \A i \in EvKinds(e, "PF") : e[i][2] = h.numSubiters
+  /\ Cardinality(EvKinds(e, "PF")) <= 1
+  \* an estimate that is written has been through the inter-iteration filter of that sub-iteration first
+  /\ \A i \in EvKinds(e, "II") : \A j \in EvKinds(e, "W") : e[i][2] = e[j][2] => i < j
+  \* written sub-iterations are the multiples of the save interval and the last one
+  /\ { e[i][2] : i \in EvKinds(e, "W") } = IF h.disableOutput THEN {} ELSE { k \in K : k % h.save = 0 \/ k = h.numSubiters }
 =============================================================================
